@@ -78,8 +78,11 @@ def validate_translation(v: Verdict, items, before_meta, after_objs, platform_af
             except R.RefError as ex:
                 v.fail(f"{where}:output-not-valid-syntax", dict(detail, line=o.line, why=str(ex)))
                 return None
-            if got.meaning() != orig.meaning() or got.seq != orig.seq:
+            if isinstance(got, R.RemarkLine) or got.meaning() != orig.meaning() or got.seq != orig.seq:
                 v.fail(f"{where}:unsplit-entry-changed", dict(detail, at=idx, line=o.line))
+                return None
+            if not _members_kept(o, it["rec"], platform_after):
+                v.fail(f"{where}:group-members-lost", dict(detail, at=idx, line=o.line))
             rules_after.append(G.rec_rule(it["rec"]))
             pos += 1
             continue
@@ -91,8 +94,13 @@ def validate_translation(v: Verdict, items, before_meta, after_objs, platform_af
             except R.RefError as ex:
                 v.fail(f"{where}:output-not-valid-syntax", dict(detail, line=o.line, why=str(ex)))
                 return None
+            if isinstance(g, R.RemarkLine):
+                v.fail(f"{where}:run-is-not-the-operand-product", dict(detail, at=idx, run=[x.line for x in run]))
+                return None
             if g.seq != orig.seq:
                 v.fail(f"{where}:sequence-changed", dict(detail, line=o.line))
+            if not _members_kept(o, it["rec"], platform_after):
+                v.fail(f"{where}:group-members-lost-on-split-entry", dict(detail, at=idx, line=o.line))
             for side in ("sport", "dport"):
                 ps = getattr(g, side)
                 if ps is not None and ps.op in ("eq", "neq") and len(ps.operands) != 1:
@@ -123,6 +131,20 @@ def validate_translation(v: Verdict, items, before_meta, after_objs, platform_af
             if diff:
                 v.fail(f"{where}:decision-changed-for-sampled-packet", dict(detail, **diff))
     return split_any
+
+
+def _members_kept(obj, rec, platform) -> bool:
+    """Attached member networks of group addresses survive (they are part of the entry's meaning)."""
+    for side, attr in (("src", "srcaddr"), ("dst", "dstaddr")):
+        if rec[side]["k"] != "group":
+            continue
+        try:
+            got = [R._read_addr(x.line.split(), 0, platform, False)[0].pair for x in getattr(obj, attr).items]  # pylint: disable=protected-access
+        except R.RefError:
+            return False
+        if got != list(G.addr_members(rec[side])):
+            return False
+    return True
 
 
 def judge(case) -> Verdict:
@@ -159,6 +181,9 @@ def judge(case) -> Verdict:
         objs = list(grp.items)
         if len(objs) != len(items):
             raise Invalid()
+        for o_, it_ in zip(objs, items):
+            if it_["t"] == "ace":
+                A.attach_members(o_, it_["rec"])
         meta = [(o.uuid, o.line) for o in objs]
         grp.ungroup_ports()
         detail["output"] = grp.line
@@ -196,8 +221,14 @@ PORTY = st.sampled_from([6, 6, 6, 17, 17, 0, 1])
 
 @st.composite
 def case_st(draw, tier):
-    acl = draw(G.acl_st(platform="ios", min_items=1, max_items=8, kmax=2, groups=True, members=False, seqs=True,
+    acl = draw(G.acl_st(platform="ios", min_items=1, max_items=8, kmax=2, groups=True, members=True, seqs=True,
                         multi=True, neq_multi=True, protos=PORTY))
+    # duplicates of a split result elsewhere in the ACL (above or below the entry that gets split)
+    multi = [it for it in acl["items"] if it["t"] == "ace" and len(expected_run(it["rec"])) > 1]
+    if multi and draw(st.sampled_from([True, False, False])):
+        src = draw(st.sampled_from(multi))
+        twin = dict(draw(st.sampled_from(expected_run(src["rec"]))))
+        acl["items"].insert(draw(st.integers(0, len(acl["items"]))), {"t": "ace", "rec": twin})
     level = draw(st.sampled_from(["ace", "acegroup", "acl", "acl", "platform", "platform"]))
     if level in ("ace", "acegroup"):
         acl["group_by"] = ""
